@@ -20,7 +20,7 @@
 (* degree zero:                                                                 *)
 (*    reactive_fluxes(T, A, B, c.p) = c . reactive_fluxes(T, A, B, p),          *)
 (*    net_fluxes likewise,  reactive_populations(T, A, B, c.p) = (same).        *)
-(* ScalingLaw checks this for every case (c = 1 / pscale), and cases with       *)
+(* ScalingLaw checks this for every case (c = pscale), and the cases with       *)
 (* pscale = 1 / 2^30 put ALL fluxes below 1e-8 exactly.  The driver of the      *)
 (* small exhaustive scopes of Flux.tla applies the same law with c = 2^-30      *)
 (* (an exact scaling in binary floating point) to the values printed there.     *)
